@@ -58,7 +58,7 @@ func runC05(c *Ctx) {
 	}
 	c.r051(pk)
 	c.r052(pk)
-	c.entityReescape("R05.4", "svg", 2)
+	c.entityReescape("R05.4", "svg", 2, false)
 	c.r055(pk)
 }
 
